@@ -10,8 +10,11 @@ META = {
     "property_id": "C10",
     "technique": "Coq proof over a Gallina model of the MVS work-list exploration (pgavlin/mvs buildList + Graph) and "
                  "dawn's Reqs/BuildList and of the resolver's download cache (FetchProject: stage, rename, tolerate 'exists') "
-                 "as a transition system over interleaved calls, faults and kills + correspondence on generated universes "
-                 "through the package's own fake repository and through multi-repository layouts with fault injection",
+                 "as a transition system over interleaved calls, faults, kills and damage from outside, of the repository "
+                 "lookup with its memo (findProjectRepository) and of the project's own resolution (loadConfigFile) + "
+                 "correspondence on generated universes through the package's own fake repository, through "
+                 "multi-repository layouts (nested projects, two kinds of host) with fault injection and lookup orders, "
+                 "and through dawn.Load on the caches those runs filled, intact and damaged",
     "level_text": "Theorems (Coq, unbounded): for every processing order of the work list, every finite universe (cycles, "
                   "diamonds, several majors) and every root requirement list, the model's build list is exactly the set of "
                   "reachable paths, each once, at the maximum version over the reachable requirements, sorted by path "
@@ -21,23 +24,38 @@ META = {
                   "reachable by interleaved resolveProject calls of any number of resolvers, failing operations and kills, every "
                   "directory in the cache is a complete download (cache_entries_complete), a call without a failed operation "
                   "returns the project's own configuration (resolve_via_cache), and a build list computed from such answers is "
-                  "the build list of the universe (build_list_cache_independent). The model is tied to "
+                  "the build list of the universe (build_list_cache_independent). Answers that are each the project's own "
+                  "or an error make a run fail or leave its list unchanged (build_list_fails_or_same); with the damage the "
+                  "cache can suffer from outside dawn added to the world, a returned call still answers with the project's "
+                  "configuration or an error (resolve_via_damaged_cache), so Load fails or Project.buildList is the MVS "
+                  "solution (load_fails_or_solution). The repository lookup answers what a memo miss computes whatever "
+                  "the resolver looked up before (find_repository_order_independent) and the answer joins to the looked-up "
+                  "path (find_repository_sound). The model is tied to "
                   "get.go/reqs.go/resolver.go and the library by running both on generated universes "
                   "(cold cache, warm resolver, warm disk cache, shared cache, shuffled declaration order) and, for the cache "
                   "model, on multi-repository layouts with every delivery point of a download failing once or parked while a "
-                  "second resolver runs / the cache directory is copied (the state a kill would leave).",
+                  "second resolver runs / the cache directory is copied (the state a kill would leave); on the same layouts "
+                  "every cache entry is compared with the tree of its project version, one resolver answers every "
+                  "reachable project version as a single-requirement root in a drawn order and in its reverse before the "
+                  "case's root, and the repository lookups of resolvers with different histories are compared with each "
+                  "other and with Mvs/Locate.v; the caches of the resolvable cases are then loaded as projects by dawn.Load "
+                  "(Project.buildList vs the reference and vs Mvs/Load.v), intact and with an entry unreadable or out of reach.",
     "level_note": "Trusted: Coq kernel; the python rendering of version strings into canonical semver records; the "
                   "model of par.Work as an arbitrary sequential pick order (g.Require runs under the library's mutex); the cache "
                   "theorems assume os.Rename of a directory is atomic, that a complete download holds the project's configuration "
                   "(deliver_sound) and that two requested project versions sharing a cache directory resolve alike (key_sound: "
                   "fails for a requirement path without the major suffix of its version, the recorded observation of DESIGN 5; "
-                  "such paths are not generated); a copy-instead-of-rename publication could only be seen by parking inside the "
+                  "such paths are not generated); the lookup theorems assume that the set of addresses that answer a dial is stable over the "
+                  "life of a resolver and that project paths are clean (LoadConfigBytes applies CleanPath); the project-load "
+                  "family cannot inject a dialer into dawn.Load (the Dialer interface is sealed), so its repositories are "
+                  "either fully cached or unreachable; a copy-instead-of-rename publication could only be seen by parking inside the "
                   "resolver's own copy, which the harness cannot do. "
                   "Requirement versions are canonical (LoadConfigBytes enforces it); build metadata is out of the model.",
     "design_ref": "DESIGN.md §6 C10",
 }
 
-HDR = "From Dawn Require Import Mvs.Edit Mvs.Run.\nOpen Scope N_scope.\n"
+HDR = "From Dawn Require Import Mvs.Edit Mvs.Run Mvs.Load Mvs.Locate Mvs.RunLoad.\nOpen Scope N_scope.\n"
+LOAD_BASE, LOC_BASE = 1000000, 2000000
 OVL = "overlay/internal/mvs/"
 FILES = ["zz_verif_mvsgen_test.go", "zz_verif_c10_test.go", "zz_verif_c10_cache_test.go", "zz_verif_c11_test.go"]
 
@@ -146,12 +164,26 @@ def cache_family(ctx, crecs):
         "faults_that_fired": fired, "faults_that_did_not_fire": sum(c["not_fired"] for c in ccases),
         "reference_ok": sum(1 for c in ccases if c["want"]["st"] == "ok"),
         "layout": {k: sum(1 for u in cunis.values() for p in u["layout"].values() if sel(p))
-                   for k, sel in (("own repository, at its root", lambda p: p["path_in_repository"] == "" ),
+                   for k, sel in (("at the root of a repository", lambda p: p["path_in_repository"] == "" ),
                                   ("own repository, subdirectory", lambda p: "/m-" in p["repository"]),
-                                  ("shared repository", lambda p: p["repository"].endswith("/u")))},
+                                  ("shared repository", lambda p: p["repository"].endswith("/u")),
+                                  ("nested in the tree of another project", lambda p: p["nested_in_project"] != ""),
+                                  ("nested in the project at the repository root",
+                                   lambda p: p["nested_in_project"] != "" and p["nested_in_project"] == p["repository"]),
+                                  ("repository on the well-known host", lambda p: p["repository"].startswith("github.com/")),
+                                  ("repository found by dialing prefixes", lambda p: not p["repository"].startswith("github.com/")))},
+        "entries_checked_against_tables": end[0].get("entries_checked_against_tables", 0),
+        "exported_to_project_load_family": end[0].get("exported", 0),
         "rule": "generated universes laid out over several repositories (project at a repository root reported as '' "
-                "or '.', in a subdirectory, in the shared repository; dawn.toml or .dawnconfig next to other files; a "
-                "third of the universes with requirements on pseudo-versions); delivery as os.CopyFS does it "
+                "or '.', in a subdirectory, in the shared repository, nested below another project -- also below the "
+                "project at the repository root --, whose download then carries the nested trees; repositories on the "
+                "well-known host or, a third of the universes, on hosts where the repository is found by dialing prefixes "
+                "of the project path; dawn.toml or .dawnconfig next to other files; a third of the universes each with "
+                "no / a fifth / half of the requirements on pseudo-versions); per case the fault-free cold and warm runs, "
+                "every cache entry compared with the tree of its project version in the generated tables, and two "
+                "lookup orders: one resolver answers a root with a single requirement for every reachable project "
+                "version, in a drawn order and in its reverse, then the case's root, then a fresh resolver on the cache "
+                "it left; delivery as os.CopyFS does it "
                 "(directory, then file by file in lexical order, the configuration file created empty / a well-formed "
                 "prefix / the rest); per case 3 downloads of the cold run: every delivery point of the first and two of "
                 "each other, plus one of dial / list versions / look up revision; each point x {fails once: same "
@@ -172,6 +204,7 @@ def cache_family(ctx, crecs):
             f["name"], (" (fault %s)" % fault["meaning"]) if fault else "", json.dumps(f["got"])[:300],
             json.dumps(f["want"])[:300]),
             {"oracle": f["name"], "universe_and_layout": cunis[f["u"]], "root_requirements": f["root"], "fault": fault,
+             "roots_answered_before_by_the_same_resolver": f.get("before"),
              "got": f["got"], "want": f["want"], "error_text": f.get("error_text", ""),
              "how": "internal/mvs.BuildList over the repositories of harness/overlay/internal/mvs/"
                     "zz_verif_c10_cache_test.go: case %d of VERIF_SEED=%d -run TestVerifC10Cache" % (f["case"], ctx.seed)})
@@ -186,6 +219,217 @@ def cache_family(ctx, crecs):
                       {"theorem_or_correspondence": "correspondence Mvs/Cache.v (cache_entries_complete) <-> "
                                                     "internal/mvs/resolver.go FetchProject",
                        "universe_and_layout": cunis[inv[0]["u"]], "disagreeing_cases": inv[:3]}, found_input=False)
+
+
+U_REPO = "github.com/verif/u"
+
+
+def unrename_table(cu):
+    """layout path (repository[/path in it]) -> universe path, for one CU record"""
+    t = {}
+    for d, p in cu["layout"].items():
+        lp = p["repository"] + ("/" + p["path_in_repository"] if p["path_in_repository"] else "")
+        t[lp] = U_REPO + "/" + d
+    return t
+
+
+def unrename(t, path):
+    """a project path of the layout (possibly with an @vN suffix) in the universe's terms"""
+    if path == "":
+        return ""
+    trimmed, at, major = path.partition("@")
+    return t[trimmed] + at + major
+
+
+def load_model_exprs(lrecs, crecs):
+    """the project-load family as model cases: per universe (root configuration, damaged cache keys, outcome), all in
+    the universe's own paths (the layout only renames projects), results sorted by path again"""
+    cunis = {r["id"]: r for r in crecs if r["t"] == "CU"}
+    roots = {r["case"]: r for r in crecs if r["t"] == "CC"}
+    groups, index = {}, []
+
+    def result(t, res):
+        if res["st"] != "ok":
+            return cq_bl_result(res)
+        m = sorted(([unrename(t, p), v] for p, v in res["m"]), key=lambda e: e[0].encode("utf-8"))
+        return cq_bl_result({"st": "ok", "m": m})
+
+    for r in lrecs:
+        if r["t"] not in ("LC", "LS"):
+            continue
+        cu = cunis[r["u"]]
+        t = unrename_table(cu)
+        root = [(n, unrename(t, p), v) for n, p, v in roots[r["case"]]["root"]]
+        if r["t"] == "LC":
+            keys, res = [], r["intact"]
+        else:
+            path, _, ver = r["entry"].rpartition("@")
+            keys, res = [cq_node(t[path], ver)], r["res"]
+        i = LOAD_BASE + len(index)
+        index.append(r)
+        groups.setdefault(r["u"], []).append("(%s, (%s, (%s, %s)))" % (cq_N(i), cq_config(root), cq_list(keys, "node"),
+                                                                       result(t, res)))
+    exprs, cur, n = [], [], 0
+    for uid, items in groups.items():
+        cur.append("(%s,\n  %s)" % (cq_universe(cunis[uid]["base"]), cq_list(items)))
+        n += len(items)
+        if n >= 150:
+            exprs.append("mismatches_c10_load [\n" + ";\n".join(cur) + "]")
+            cur, n = [], 0
+    if cur:
+        exprs.append("mismatches_c10_load [\n" + ";\n".join(cur) + "]")
+    return exprs, index
+
+
+def locate_model_exprs(crecs):
+    """the repository lookups observed on the resolvers of the cache-state family, for Mvs/Locate.v"""
+    index, groups = [], []
+    for r in crecs:
+        if r["t"] != "LOCS":
+            continue
+        items = []
+        for pp, st, addr, rel in r["lookups"]:
+            i = LOC_BASE + len(index)
+            index.append({"u": r["u"], "repositories": r["repositories"], "project_path": pp,
+                          "implementation": {"st": st, "repository": addr, "project_path_in_repository": rel}})
+            obs = "(Some (%s, %s))" % (cq_str(addr), cq_str(rel)) if st == "ok" else "None"
+            items.append("(%s, (%s, %s))" % (cq_N(i), cq_str(pp), obs))
+        groups.append("(%s,\n  %s)" % (cq_list([cq_str(a) for a in r["repositories"]], "str"), cq_list(items)))
+    exprs = []
+    for k in range(0, len(groups), 25):
+        exprs.append("mismatches_locate [\n" + ";\n".join(groups[k:k + 25]) + "]")
+    return exprs, index
+
+
+def load_family(ctx, lrecs, crecs, rc, o):
+    """the build list as the project resolves it: Load -> loadConfigFile -> Project.buildList on the exported cases of the
+    cache-state family, intact and with cache states in which the graph cannot be walked
+    (harness/overlay/root/zz_verif_c10_load_test.go)"""
+    cunis = {r["id"]: r for r in crecs if r["t"] == "CU"}
+    end = [r for r in lrecs if r["t"] == "END"]
+    lcases = [r for r in lrecs if r["t"] == "LC"]
+    how = "VERIF_SEED=%d: go test -overlay ... -run 'TestVerifC10Cache' ./internal/mvs with VERIF_C10_EXPORT=<dir>, then " \
+          "-run TestVerifC10Load . (harness/overlay/root/zz_verif_c10_load_test.go)" % ctx.seed
+    if rc != 0 or not end or not lcases:
+        cc = crashed_case(lrecs)
+        if rc not in (0, None) and lrecs and cc is not None:
+            ctx.violation("Load crashed the process on exported case %d of the project-load family" % cc,
+                          {"case": cc, "output": (o or "")[-3000:], "how": how})
+        else:
+            ctx.log((o or "")[-3000:])
+            ctx.violation("the project-load family of the C10 harness did not run to its end (exit %s)" % rc,
+                          {"theorem_or_correspondence": "TestVerifC10Load", "records": len(lrecs), "output": (o or "")[-3000:]},
+                          found_input=False)
+        return
+    outcomes = {}
+    for c in lcases:
+        for k, v in c["outcomes"].items():
+            outcomes[k] = outcomes.get(k, 0) + v
+    ctx.coverage["evaluations"] += end[0]["loads"]
+    ctx.coverage["project_load"] = {
+        "cases": len(lcases), "loads": end[0]["loads"], "unwalkable_graph_scenarios": end[0]["scenarios"],
+        "scenario_kinds": end[0]["kinds"], "outcomes": outcomes,
+        "intact_ok": sum(1 for c in lcases if c["intact"]["st"] == "ok"),
+        "root_config_file": {k: sum(1 for c in lcases if c["root_config_file"] == k) for k in ("dawn.toml", ".dawnconfig")},
+        "rule": "the cases of the cache-state family whose reference resolves (complete cache filled by the real resolver, "
+                "multi-repository layouts, pseudo-versions) loaded as a project by dawn.Load with the cache as "
+                "$HOME/.dawn/modules/cache and the root requirements in dawn.toml or .dawnconfig: Project.buildList must be "
+                "the reference; then per case up to 3 (thorough: 6) cache entries x {configuration file torn at the longest / "
+                "a middle / the shortest prefix dawn's parser rejects, replaced by other bytes, removed; entry is a regular "
+                "file; entry missing while no repository can be dialed}: Load must fail or answer with the reference",
+    }
+    if end[0]["scenarios"] == 0 or outcomes.get("fails", 0) == 0 and outcomes.get("WRONG", 0) == 0:
+        ctx.violation("no cache state of the project-load family made the requirement graph unwalkable (harness defect)",
+                      {"theorem_or_correspondence": "TestVerifC10Load", "outcomes": outcomes}, found_input=False)
+    seen = set()
+    for f in [r for r in lrecs if r["t"] == "ORACLE"]:
+        if f["name"] in seen:
+            continue
+        seen.add(f["name"])
+        fault = f.get("fault")
+        ctx.violation("implementation violates C10 oracle %s%s: Project.buildList after Load = %s, expected %s%s" % (
+            f["name"], (" (%s: %s, %s)" % (fault["kind"], fault["cache_entry"], fault["detail"])) if fault else "",
+            json.dumps(f["got"])[:300], "failure or " if fault else "", json.dumps(f["want"])[:300]),
+            {"oracle": f["name"], "universe_and_layout": cunis.get(f["u"]), "root_requirements": f["root"],
+             "root_config_file": f["root_config_file"], "cache_state": fault or "intact: every reachable project version is in "
+             "the cache, as the real resolver downloaded it", "got": f["got"], "want": f["want"],
+             "error_text": f.get("error_text", ""), "how": how + "; exported case %d" % f["case"]})
+
+
+def fetch_family(ctx):
+    """fourth family: the REAL git repository (internal/vcs/repo_git.go) delivering project versions one at a time on fresh
+    dials, in turn on one dialed repository, and several at once on one dialed repository -- what the parallel build-list
+    traversal does with a cold download cache (harness/overlay/internal/vcs/zz_verif_c10_fetch_test.go).  The model takes
+    "what the repository delivers for a project version" as a function of the project version alone (Mvs/Cache.v, Section
+    variable [deliver]); this family checks the real repository against that."""
+    import shutil
+    import threading
+    files = {"zz_verif_c10_fetch_test.go": os.path.join(HARNESS, "overlay/internal/vcs/zz_verif_c10_fetch_test.go")}
+    for fn in ("go.mod", "go.sum"):
+        shutil.copy(os.path.join(REPO, fn), os.path.join(ctx.tmp, "c10f-" + fn))
+    extra = ["-modfile=" + os.path.join(ctx.tmp, "c10f-go.mod")]
+    runs = {}
+
+    def one(name, more, seed, rounds):
+        out = os.path.join(ctx.tmp, "c10fetch-%s.jsonl" % name)
+        env = {"VERIF_OUT_FETCH": out, "VERIF_SEED": str(seed), "VERIF_FETCH_REPOS": "4" if ctx.quick() else "12",
+               "VERIF_FETCH_ROUNDS": str(rounds)}
+        if name == "race":
+            env["CGO_ENABLED"] = "1"
+        rc, o = ctx.go_overlay_test("internal/vcs", files, "^TestVerifC10Fetch$", env, timeout=1200, extra=extra + more)
+        runs[name] = (rc, o, read_jsonl(out))
+    ths = [threading.Thread(target=one, args=("plain", [], ctx.seed, 8 if ctx.quick() else 30)),
+           threading.Thread(target=one, args=("race", ["-race"], ctx.seed + 500, 4 if ctx.quick() else 12))]
+    for t in ths:
+        t.start()
+    for t in ths:
+        t.join()
+    cov = {}
+    how = "go test -overlay ... -run ^TestVerifC10Fetch$ ./internal/vcs (harness/overlay/internal/vcs/zz_verif_c10_fetch_test.go), VERIF_SEED=%d"
+    for name, (rc, o, recs) in runs.items():
+        jobs = [r for r in recs if r["t"] == "JOB"]
+        bad = [r for r in jobs if "differs" in r or "error" in r]
+        ended = any(r["t"] == "END" for r in recs)
+        nraces = o.count("WARNING: DATA RACE")
+        cov[name] = {"exit": rc, "repositories": sum(1 for r in recs if r["t"] == "REPO"),
+                     "deliveries": {m: sum(1 for r in jobs if r["mode"] == m) for m in ("alone", "in-turn", "together")},
+                     "rounds_of_simultaneous_fetches": sum(1 for r in recs if r["t"] == "ROUND"), "data_races": nraces}
+        seed = ctx.seed + (500 if name == "race" else 0)
+        if name == "race" and rc != 0 and not recs and re.search(r"-race requires cgo|-race is only supported|C compiler .* not found|exec: \"(gcc|cc|clang)\"", o):
+            ctx.log("race detector unavailable:", o.strip().splitlines()[-1][:200] if o.strip() else "")
+            cov[name]["unavailable"] = True
+            continue
+        for mode, what in (("alone", "fetched alone on a freshly dialed repository"),
+                           ("in-turn", "fetched after other project versions from the same dialed repository"),
+                           ("together", "fetched while other project versions were being fetched from the same dialed repository")):
+            b = [r for r in bad if r["mode"] == mode]
+            if b:
+                r = b[0]
+                ctx.violation("implementation violates C10 oracle fetch:repository-delivers-the-tree-of-the-project-version (%s): project %s at %s %s: %s%s" % (
+                    mode, r["project"], r["tag"], what, ("error " + r["error"]) if "error" in r else ("delivered tree " + r["differs"]),
+                    ("; fetches so far / at the same time: " + ", ".join(r.get("jobs", [])[:12])) if r.get("jobs") else ""),
+                    {"oracle": "fetch:" + mode, "failing_deliveries": b[:6], "count": len(b), "how": how % seed + (" under -race" if name == "race" else "")},
+                    key="fetch:" + mode)
+        if nraces:
+            first = o[o.index("WARNING: DATA RACE"):]
+            first = first[:first.find("==================")] if "==================" in first else first
+            ctx.violation("fetching two project versions from one dialed git repository at the same time shares memory (%d data races "
+                          "reported by the race detector): what is delivered can depend on the schedule" % nraces,
+                          {"oracle": "fetch:race-detector", "first_report": [l.strip() for l in first.splitlines() if l.strip()][:26],
+                           "how": how % seed + " under -race"}, key="fetch:race")
+        elif rc != 0 and not bad:
+            rounds = [r for r in recs if r["t"] == "ROUND"]
+            if rounds and not ended:
+                r = rounds[-1]
+                ctx.violation("implementation violates C10 oracle fetch:process-dies: fetching %s at the same time from one dialed git "
+                              "repository (projects %s) killed the process: %s" % (", ".join(r["jobs"]), r["projects"],
+                                                                                   next((l for l in o.splitlines() if l.startswith(("fatal error", "panic"))), "")[:200]),
+                              {"oracle": "fetch:process-dies", "round": r, "output": o[:3000], "how": how % seed}, key="fetch:dies")
+            else:
+                ctx.violation("the git-repository harness failed to build or run against /repo (exit %d)" % rc,
+                              {"theorem_or_correspondence": "C10 fetch harness", "output": o[-3000:]}, found_input=False, key="fetch:harness")
+    ctx.coverage["correspondence"]["git_repository_fetches"] = cov
+    ctx.coverage["evaluations"] += sum(sum(c["deliveries"].values()) for c in cov.values())
 
 
 def run(ctx):
@@ -211,13 +455,32 @@ def run(ctx):
     if os.path.isdir("/dev/shm") and os.access("/dev/shm", os.W_OK):
         shm = tempfile.mkdtemp(prefix="verif-c10-", dir="/dev/shm")
         env["TMPDIR"] = shm
+    # the cache-state family exports complete caches + root requirement sets + reference lists for the third family,
+    # which loads them as projects through the root package's Load (harness/overlay/root/zz_verif_c10_load_test.go)
+    export = os.path.join(shm or ctx.tmp, "c10-export")
+    os.makedirs(export, exist_ok=True)
+    env["VERIF_C10_EXPORT"] = export
+    env["VERIF_C10_EXPORT_MAX"] = str(40 if ctx.quick() else 400)
+    outl = os.path.join(ctx.tmp, "c10load.jsonl")
+    rcl, ol = None, ""
     try:
         rc, o = ctx.go_overlay_test("internal/mvs", harness_files(), "^TestVerifC10(Cache)?$", env, timeout=1500)
+        if rc == 0:
+            envl = {"VERIF_C10_EXPORT": export, "VERIF_OUT_LOAD": outl, "VERIF_SEED": str(ctx.seed),
+                    "VERIF_C10_LOAD_ENTRIES": "3" if ctx.quick() else "6",
+                    # no repository may be reached from here: every dial fails at once, as on a machine without network
+                    "HTTPS_PROXY": "http://127.0.0.1:1", "HTTP_PROXY": "http://127.0.0.1:1", "ALL_PROXY": "http://127.0.0.1:1",
+                    "NO_PROXY": "", "GIT_SSH_COMMAND": "false", "SSH_AUTH_SOCK": ""}
+            if shm:
+                envl["TMPDIR"] = shm
+            rcl, ol = ctx.go_overlay_test("", {"zz_verif_c10_load_test.go": os.path.join(HARNESS, "overlay/root/zz_verif_c10_load_test.go")},
+                                          "^TestVerifC10Load$", envl, timeout=900)
     finally:
         if shm:
             shutil.rmtree(shm, ignore_errors=True)
     recs = read_jsonl(out)
     crecs = read_jsonl(outc)
+    lrecs = read_jsonl(outl)
     if rc != 0:
         ctx.log(o[-3000:])
         cc = crashed_case(recs)
@@ -261,6 +524,8 @@ def run(ctx):
     ctx.coverage["exhaustive"] = False
     ctx.coverage["correspondence"]["distribution"] = dist
     cache_family(ctx, crecs)
+    load_family(ctx, lrecs, crecs, rcl, ol)
+    fetch_family(ctx)
     ctx.add_samples([{"root": c["root"], "build_list": c["res"]["cold"]} for c in cases[:3]])
 
     seen = set()
@@ -289,16 +554,44 @@ def run(ctx):
             cur, n = [], 0
     if cur:
         exprs.append("mismatches_c10 [\n" + ";\n".join(cur) + "]")
-    okc, res, logs = ctx.coq_eval(HDR, exprs)
+    lexprs, lindex = load_model_exprs(lrecs, crecs) if any(r["t"] == "END" for r in lrecs) else ([], [])
+    kexprs, kindex = locate_model_exprs(crecs)
+    okc, res, logs = ctx.coq_eval(HDR, exprs + lexprs + kexprs)
     if not okc:
         ctx.log("coq evaluation failed", logs[:1])
         ctx.violation("model evaluation failed", {"theorem_or_correspondence": "C10 cases.v evaluation", "log": logs[:2]},
                       found_input=False)
         return
-    mism = [i for r in res for i in r]
+    allm = [i for r in res for i in r]
+    mism = [i for i in allm if i < LOAD_BASE]
+    lmism = [lindex[i - LOAD_BASE] for i in allm if LOAD_BASE <= i < LOC_BASE]
+    kmism = [kindex[i - LOC_BASE] for i in allm if i >= LOC_BASE]
     ctx.coverage["correspondence"]["cases"] = len(cases)
     ctx.coverage["correspondence"]["mismatches"] = len(mism)
-    ctx.log("cases=%d mismatches=%d oracle_failures=%d" % (len(cases), len(mism), len(oracles)))
+    ctx.coverage["correspondence"]["project_load_cases"] = len(lindex)
+    ctx.coverage["correspondence"]["project_load_mismatches"] = len(lmism)
+    ctx.coverage["correspondence"]["repository_lookups"] = len(kindex)
+    ctx.coverage["correspondence"]["repository_lookup_mismatches"] = len(kmism)
+    ctx.coverage["correspondence"]["repository_lookup_distribution"] = {
+        k: sum(1 for e in kindex if sel(e)) for k, sel in (
+            ("found on the well-known host", lambda e: e["implementation"]["st"] == "ok" and e["project_path"].startswith("github.com/")),
+            ("found by dialing prefixes", lambda e: e["implementation"]["st"] == "ok" and not e["project_path"].startswith("github.com/")),
+            ("at the repository root", lambda e: e["implementation"]["st"] == "ok" and e["implementation"]["project_path_in_repository"] == ""),
+            ("no repository", lambda e: e["implementation"]["st"] != "ok"))}
+    ctx.coverage["evaluations"] += len(kindex)
+    ctx.log("cases=%d mismatches=%d oracle_failures=%d; project-load cases=%d mismatches=%d; repository lookups=%d mismatches=%d" % (
+        len(cases), len(mism), len(oracles), len(lindex), len(lmism), len(kindex), len(kmism)))
+    if lmism and not ctx.violations:
+        ctx.violation("model/implementation disagree on %d project loads, e.g. exported case %d%s" % (
+            len(lmism), lmism[0]["case"], (" with cache entry %s damaged (%s)" % (lmism[0]["entry"], lmism[0]["kind"]))
+            if lmism[0]["t"] == "LS" else " (intact cache)"),
+            {"theorem_or_correspondence": "correspondence Mvs/Load.v (load_build_list) <-> project_config.go loadConfigFile via Load",
+             "disagreeing_cases": lmism[:3]}, found_input=False)
+    if kmism and not ctx.violations:
+        ctx.violation("model/implementation disagree on %d repository lookups, e.g. %s" % (len(kmism), kmism[0]["project_path"]),
+                      {"theorem_or_correspondence": "correspondence Mvs/Locate.v (find_project_repository) <-> "
+                                                    "internal/mvs/resolver.go findProjectRepository",
+                       "disagreeing_cases": kmism[:3]}, found_input=False)
     if mism and not oracles:
         ex = [{"universe": unis[cases[i]["u"]], "root": cases[i]["root"], "implementation": cases[i]["res"]["cold"]}
               for i in mism[:3]]
